@@ -24,8 +24,10 @@ func ruleImportVisibility(c *Ctx) []Obligation {
 }
 
 type actxImpState struct {
-	ent      map[types.Object]string // local → entity kind ("type","function","variable","template","trigger") looked up in the imported module
-	tested   map[types.Object]bool   // pub attribute tested with an error on the failing side
+	ent      map[types.Object]string       // local → entity kind ("type","function","variable","template","trigger") looked up in the imported module
+	tested   map[types.Object]bool         // pub attribute tested with an error on the failing side
+	der      map[types.Object]types.Object // local computed from an entity (a copy, a field, a wrapper built from it) → that entity
+	pubCopy  map[types.Object]bool         // local that is a copy of an entity record carrying IsPub: true = IsPub not yet reset to the constant false
 	reported bool
 	resolved bool
 	dec      []string
@@ -38,6 +40,18 @@ func actxImpClone(s *actxImpState) *actxImpState {
 	}
 	for k, v := range s.tested {
 		n.tested[k] = v
+	}
+	if len(s.der) > 0 {
+		n.der = map[types.Object]types.Object{}
+		for k, v := range s.der {
+			n.der[k] = v
+		}
+	}
+	if len(s.pubCopy) > 0 {
+		n.pubCopy = map[types.Object]bool{}
+		for k, v := range s.pubCopy {
+			n.pubCopy[k] = v
+		}
 	}
 	n.dec = append([]string(nil), s.dec...)
 	return n
@@ -151,6 +165,7 @@ func actxImportAnalyzer(c *Ctx) []Obligation {
 	var bad []finding
 	okKinds := map[string]int{}
 	nret := 0
+	ncopy := 0
 	pathsIncomplete := false
 	reporters := actxErrReporters(p)
 	if len(reporters) == 0 {
@@ -388,12 +403,28 @@ func actxImportAnalyzer(c *Ctx) []Obligation {
 				for _, a := range ce.Args {
 					ast.Inspect(a, func(y ast.Node) bool {
 						if id, ok := y.(*ast.Ident); ok {
-							if _, isEnt := st.ent[info.Uses[id]]; isEnt {
-								used = append(used, info.Uses[id])
+							o := info.Uses[id]
+							if root, isDer := st.der[o]; isDer {
+								o = root
+							}
+							if _, isEnt := st.ent[o]; isEnt {
+								used = append(used, o)
 							}
 						}
 						return true
 					})
+				}
+				// a scope entry made by copying the imported record keeps the exporter's pub flag unless it is reset
+				for _, a := range ce.Args {
+					if id, ok := ast.Unparen(a).(*ast.Ident); ok {
+						if pending, isCopy := st.pubCopy[info.Uses[id]]; isCopy {
+							ncopy++
+							if pending {
+								bad = append(bad, finding{key: "copied entry keeps pub", pos: ce.Pos(),
+									detail: fmt.Sprintf("%s(…) at %s records `%s`, a copy of the record looked up in the imported module, without its IsPub having been reset to the constant false on this path: the importing module re-exports the name [%s]", f.Name(), c.Pos(ce.Pos()), id.Name, strings.Join(st.dec, ", "))})
+							}
+						}
+					}
 				}
 				for _, e := range used {
 					kind := st.ent[e]
@@ -450,6 +481,74 @@ func actxImportAnalyzer(c *Ctx) []Obligation {
 						kind := actxEntityKind(obj.Type())
 						st.ent[obj] = kind
 						delete(st.tested, obj)
+					}
+				}
+			}
+			// `copy.IsPub = false`: the copy is made private
+			if as, ok := s.(*ast.AssignStmt); ok && len(as.Lhs) == len(as.Rhs) {
+				for i, l := range as.Lhs {
+					if sel, ok := l.(*ast.SelectorExpr); ok && sel.Sel.Name == "IsPub" {
+						if id, ok := ast.Unparen(sel.X).(*ast.Ident); ok {
+							if _, isCopy := st.pubCopy[info.Uses[id]]; isCopy {
+								tv := info.Types[as.Rhs[i]]
+								st.pubCopy[info.Uses[id]] = !(tv.Value != nil && tv.Value.String() == "false")
+							}
+						}
+					}
+				}
+			}
+			// a local computed from an entity (`imported := *typ`, `wrapper := newTypeWrapper(typ.Type…)`,
+			// `typeHere := typ.Type.SetSpan(…)`) carries that entity into whatever it is handed to
+			if as, ok := s.(*ast.AssignStmt); ok && len(as.Lhs) == len(as.Rhs) {
+				for i, l := range as.Lhs {
+					id, ok := l.(*ast.Ident)
+					if !ok || id.Name == "_" {
+						continue
+					}
+					obj := info.Defs[id]
+					if obj == nil {
+						obj = info.Uses[id]
+					}
+					if obj == nil {
+						continue
+					}
+					if _, isEnt := st.ent[obj]; isEnt && len(as.Rhs) == 1 && isModuleVar(as.Rhs[0]) {
+						continue // the lookup itself (handled above)
+					}
+					var root types.Object
+					ast.Inspect(as.Rhs[i], func(y ast.Node) bool {
+						if rid, ok := y.(*ast.Ident); ok && root == nil {
+							o := info.Uses[rid]
+							if r2, isDer := st.der[o]; isDer {
+								o = r2
+							}
+							if _, isEnt := st.ent[o]; isEnt && o != obj {
+								root = o
+							}
+						}
+						return root == nil
+					})
+					if root != nil {
+						if st.der == nil {
+							st.der = map[types.Object]types.Object{}
+						}
+						st.der[obj] = root
+					} else if st.der != nil {
+						delete(st.der, obj)
+					}
+					// a plain copy of the entity record (`x := *typ` / `x := val`) that carries IsPub
+					if st.pubCopy != nil {
+						delete(st.pubCopy, obj)
+					}
+					rhs := ast.Unparen(as.Rhs[i])
+					if se, isStar := rhs.(*ast.StarExpr); isStar {
+						rhs = ast.Unparen(se.X)
+					}
+					if rid, isId := rhs.(*ast.Ident); isId && root != nil && info.Uses[rid] == root && pubAttr(obj.Type()) == "IsPub" {
+						if st.pubCopy == nil {
+							st.pubCopy = map[types.Object]bool{}
+						}
+						st.pubCopy[obj] = true
 					}
 				}
 			}
@@ -528,6 +627,14 @@ func actxImportAnalyzer(c *Ctx) []Obligation {
 			ob.Status, ob.Detail = Undecided, "no path records an imported "+kind+" looked up in the imported module: anchor moved"
 		} else {
 			ob.Status, ob.Detail = Discharged, fmt.Sprintf("on all %d recording paths the %s's pub attribute was tested and the non-pub side reports an error", okKinds[kind], kind)
+		}
+		out = append(out, ob)
+	}
+	if ncopy > 0 {
+		ob := Obligation{Key: fname + "|copied scope entry|pub flag", Pos: c.Pos(imp.Pos()), Nontrivial: true, Status: Discharged,
+			Detail: "every scope entry made by copying a record of the imported module has its IsPub reset to the constant false before it is recorded"}
+		if fs := byKey["copied entry keeps pub"]; len(fs) > 0 {
+			ob.Status, ob.Detail, ob.Pos = Violated, fs[0].detail, c.Pos(fs[0].pos)
 		}
 		out = append(out, ob)
 	}
